@@ -15,6 +15,10 @@ HDR = 96
 BPP = {"u8": 1, "i8": 1, "u16": 2, "i16": 2}
 
 RULES = {
+    "C08": {"UseAfterClose", "UseOfUnknownHandle", "UseAfterShutdown", "HandleReused", "ClosedTwice", "ClosedWhileRunning",
+            "StartWhileRunning", "StopWithoutStart", "AppendOutsideStartStop", "FrameOutsideStartStop", "WorkersAliveAfterStop",
+            "DeviceRunningAfterStop", "NotArmedAfterStop", "DeviceNotClosedByShutdown", "WorkersAliveAfterShutdown",
+            "RunningWithoutWorkers", "Hang"},
     "C04": {"StorNotRunning", "StorFrameOrder", "StorFrameNotFromCamera", "StorFrameMismatch", "StorPixelsAltered",
             "PacketChangedDuringAppend", "StopIncomplete", "StopCameraIncomplete", "FrameShape"},
     "C05": {"PacketNotWhole", "FrameMisaligned", "FrameSizeField", "FrameShape", "MonPacketNotWhole", "MonFrameMisaligned",
@@ -183,13 +187,81 @@ def gen_config(rng, fam, out, i):
     return "\n".join(lines) + "\n"
 
 
-FAMILIES = {"C04": ["complete"], "C05": ["complete", "monitor"], "C06": ["monitor"], "C07": ["abort"], "C09": ["fault"], "C10": ["avg"]}
+def gen_lifecycle(rng, out, i):
+    """C08: client programs from the usage grammar over 2 cameras x 2 storages."""
+    lines = sched_lines(rng, 7)
+    streams = [stream_line(rng, s, "lifecycle") for s in range(2)]
+    for d in streams:
+        d["frames"] = rng.choice([1, 2, 4, 7, -1])
+        d["trigger"] = 1 if rng.random() < 0.2 else 0
+        d["delay_ms"] = 0
+    fb = max(frame_bytes(d["w"], d["h"], d["type"]) for d in streams)
+    lines += ["cap %d" % (int(fb * rng.choice([1.5, 2.5, 4.0, 8.0])) + 3), "fill 0", "streams 2", "noinit 1"]
+    CFGS = ["0 0 -1 -1", "0 0 1 1", "1 1 -1 -1", "-1 -1 0 0", "0 1 1 0", "1 0 -1 -1", "-1 -1 -1 -1"]
+    prog = []
+    cur = None
+    running = False
+    registered = set()   # streams whose monitor reader the client has registered since the last stop/abort
+    n = rng.randint(4, 14)
+    for step in range(n):
+        r = rng.random()
+        if step == 0 and rng.random() < 0.75:
+            r = 0.0      # most programs begin by configuring something
+        if r < 0.30:
+            if running and cur is not None:
+                c = cur      # well-formedness: while running only the SAME devices are re-configured
+            else:
+                c = rng.choice(CFGS)
+            prog += ["cfg"] + c.split()
+            if not running:
+                cur = c
+        elif r < 0.55:
+            prog += ["start"]          # also start-while-running and zero-configuration start
+            if cur is not None and cur != "-1 -1 -1 -1":
+                running = True
+        elif r < 0.65:
+            if not any(d["frames"] < 0 or d["trigger"] for d in streams) or not running:
+                # client contract: a client that has been monitoring keeps polling until the acquisition is over
+                for s in sorted(registered):
+                    prog += ["monitor", str(s), "-1", "0"]
+                prog += ["stop"]
+            else:
+                prog += ["abort"]
+            running = False
+            registered = set()
+        elif r < 0.75:
+            prog += ["abort"]
+            running = False
+            registered = set()
+        elif r < 0.82:
+            prog += ["state"]
+        elif r < 0.90:
+            s = rng.randrange(2)
+            registered.add(s)
+            prog += ["map", str(s), "yield", str(rng.choice([0, 3])), "unmap", str(s), "-1"]
+        elif r < 0.95:
+            prog += ["trigger", str(rng.randrange(2))]
+        else:
+            prog += ["yield", str(rng.choice([1, 10, 60, 200]))]
+        if rng.random() < 0.3:
+            prog += ["yield", str(rng.choice([1, 5, 30, 120]))]
+    for s, d in enumerate(streams):
+        lines.append(fmt_stream(s, d))
+    lines.append("prog " + " ".join(prog))
+    lines.append("out " + out)
+    return "\n".join(lines) + "\n"
+
+
+FAMILIES = {"C08": ["lifecycle"], "C04": ["complete"], "C05": ["complete", "monitor"], "C06": ["monitor"], "C07": ["abort"], "C09": ["fault"], "C10": ["avg"]}
 NRUNS = {"quick": 600, "thorough": 6000}
 
 
-def validate(trace, workdir, heap="8g"):
-    cfg = os.path.join(SPECS, "PipelineObs.cfg")
-    r = tlc("PipelineObs", cfg, workdir, workers=1, timeout=2400, env={"TRACE": trace}, coverage=False, heap=heap)
+OBS = {"C08": "LifecycleObs"}
+
+
+def validate(trace, workdir, heap="8g", spec="PipelineObs"):
+    cfg = os.path.join(SPECS, spec + ".cfg")
+    r = tlc(spec, cfg, workdir, workers=1, timeout=2400, env={"TRACE": trace}, coverage=False, heap=heap)
     v = printed_json(r, "VERDICT")
     if not v:
         raise Broken("PipelineObs produced no verdict for %s: rc=%s %s\n%s" % (trace, r.rc, r.error, r.out[-2500:]))
@@ -215,7 +287,7 @@ def context_of(lines, first, line):
 
 
 def judge(chk, prop, trace, idx, cfgs, bdir, kind):
-    v = validate(trace, bdir)
+    v = validate(trace, bdir, spec=OBS.get(prop, "PipelineObs"))
     lines = open(trace).read().splitlines()
     per = {}
     for rule, line in v["bad"]:
@@ -251,7 +323,7 @@ def replay_script(prop, path):
     txt = "\n".join(l for l in obj["config"].splitlines() if not l.startswith("out ")) + "\nout %s\n" % out
     open(cfgp, "w").write(txt)
     run([exe, cfgp], timeout=300)
-    v = validate(out, bdir)
+    v = validate(out, bdir, spec=OBS.get(prop, "PipelineObs"))
     for l in open(out):
         if not l.startswith('{"e":"Sched"'):
             log("  " + l.rstrip()[:260])
@@ -269,7 +341,7 @@ def run_family(chk, prop, exe, bdir, fam, n, rng, tag):
     for i in range(n):
         out = os.path.join(bdir, "%s_%d.ndjson" % (tag, i))
         p = os.path.join(bdir, "%s_%d.cfg" % (tag, i))
-        open(p, "w").write(gen_config(rng, fam, out, i))
+        open(p, "w").write(gen_lifecycle(rng, out, i) if fam == "lifecycle" else gen_config(rng, fam, out, i))
         cfgs.append(p)
         traces.append(out)
     res = run_many(exe, cfgs, timeout=120)
